@@ -373,6 +373,33 @@ def discriminating(J, shape) -> bool:
     return (not np.allclose(J, J.conj())) or (not np.allclose(J, J.T))
 
 
+def generic_unitary_any(n: int, k: int = 0) -> np.ndarray:
+    """catalog.generic_unitary where its conditioning filter (no entry within 0.05 of 0) can be met; for larger n the
+    filter is unsatisfiable, then: QR of the seed-derived generic matrix (phases of R's diagonal fixed)."""
+    if n <= 6:
+        return catalog.generic_unitary(n, k)
+    q, r = np.linalg.qr(catalog.generic_matrix(n, n, k=900 + k))
+    ph = np.diag(r) / np.abs(np.diag(r))
+    return q * ph
+
+
+def structured_unitary(n: int, key: str) -> np.ndarray:
+    """I, F (Fourier), XZ (shift*clock), ph (diagonal phases), g<k> (generic) for any n >= 1."""
+    if n == 1:
+        return np.eye(1, dtype=complex)
+    if key == "I":
+        return np.eye(n, dtype=complex)
+    if key == "F":
+        return catalog.fourier(n)
+    if key == "XZ":
+        return catalog.shift(n) @ catalog.clock(n)
+    if key == "ph":
+        return np.diag([np.exp(1j * np.pi * q / 4) for q in range(n)])
+    if key.startswith("g"):
+        return generic_unitary_any(n, int(key[1:]))
+    raise KeyError(key)
+
+
 # ------------------------------------------------------------------------------------------------ trace-preserving CP families
 def isometry_family(d: int, r: int, ukey: str):
     """K_t = rows [t*d, (t+1)*d) of the first d columns of a (d*r)x(d*r) unitary  =>  sum K_t^dag K_t = I_d exactly."""
@@ -390,7 +417,7 @@ def isometry_family(d: int, r: int, ukey: str):
         else:
             U = catalog.fourier(n).conj()
     elif ukey.startswith("g"):
-        U = catalog.generic_unitary(n, int(ukey[1:]))
+        U = generic_unitary_any(n, int(ukey[1:]))
     else:
         raise KeyError(ukey)
     V = np.asarray(U, dtype=complex)[:, :d]
